@@ -16,6 +16,7 @@ type ranges[H header.Header[H]] struct {
 
 // Head returns the highest Header in all ranges if any.
 func (rs *ranges[H]) Head() H {
+	verifYield("pending:head")
 	rs.lk.RLock()
 	defer rs.lk.RUnlock()
 
@@ -36,6 +37,7 @@ func (rs *ranges[H]) head() H {
 // Add appends the new Header to existing range or starts a new one.
 // It starts a new one if the new Header is not adjacent to any of existing ranges.
 func (rs *ranges[H]) Add(h H) {
+	verifYield("pending:add")
 	rs.lk.Lock()
 	defer rs.lk.Unlock()
 
@@ -69,6 +71,7 @@ func (rs *ranges[H]) Add(h H) {
 
 // First provides a first non-empty range, while cleaning up empty ones.
 func (rs *ranges[H]) First() (*headerRange[H], bool) {
+	verifYield("pending:first")
 	rs.lk.Lock()
 	defer rs.lk.Unlock()
 
@@ -127,6 +130,7 @@ func (r *headerRange[H]) Head() H {
 
 // Get returns headers within the range up to the specified 'end' height.
 func (r *headerRange[H]) Get(end uint64) []H {
+	verifYield("range:get")
 	r.lk.RLock()
 	defer r.lk.RUnlock()
 
@@ -136,6 +140,7 @@ func (r *headerRange[H]) Get(end uint64) []H {
 
 // Remove removes all headers within the range up to the specified 'end' height.
 func (r *headerRange[H]) Remove(end uint64) {
+	verifYield("range:remove")
 	r.lk.Lock()
 	defer r.lk.Unlock()
 
